@@ -17,7 +17,10 @@ Record tcase := mkT {
   t_post : world;
   t_out : output;
   t_ref : option node;         (* workspace root the implementation had before the original commit *)
-  t_specs : list N }.
+  t_specs : list N;
+  t_obs : list N }.            (* observed facts: 1 = something outside project/cache/config changed,
+                                  2 = the dud process itself issued a mutating system call on a stage
+                                  artifact during run, ... *)
 
 Definition obj_eqb (a b : cobj) : bool := beqb (o_data a) (o_data b) && (o_mode a =? o_mode b).
 Fixpoint cache_eqb (a b : cache) : bool :=
@@ -162,6 +165,123 @@ Fixpoint all_cm (s : stree) : bool :=
              match l with [] => true | (_, k) :: r => all_cm k && go r end) kids
   end.
 
+(* C06: [preserved] as a boolean: unchanged, newly created, matching link -> copy, directory
+   whose entries are preserved *)
+Fixpoint pres_n (c : cache) (copy : bool) (n : node) (post : option node) {struct n} : bool :=
+  match post with
+  | None => false
+  | Some m =>
+    node_eqb n m ||
+    match n, m with
+    | LinkC d, File b => copy && match alookup d c with Some o => beqb (o_data o) b | None => false end
+    | Dir es, Dir es' =>
+      (fix go (l : list (bytes * node)) : bool :=
+         match l with
+         | [] => true
+         | (k, v) :: r => pres_n c copy v (alookup k es') && go r
+         end) es
+    | _, _ => false
+    end
+  end.
+Definition preserved_b (c : cache) (copy : bool) (pre post : option node) : bool :=
+  match pre with None => true | Some n => pres_n c copy n post end.
+
+(* C05: the logical tree a checksum stands for, and the independent truth of "up-to-date" *)
+Fixpoint expand (fuel : nat) (a : artifact) (c : cache) : option node :=
+  match fuel with
+  | O => None
+  | S f =>
+    match alookup (a_cs a) c with
+    | None => None
+    | Some o =>
+      if a_isdir a then
+        match dec_manifest (o_data o) with
+        | None => None
+        | Some m =>
+          option_map Dir
+            ((fix go (kids : list (bytes * artifact)) : option (list (bytes * node)) :=
+                match kids with
+                | [] => Some []
+                | (k, ch) :: r => match expand f ch c, go r with
+                                  | Some t, Some l => Some ((k, t) :: l)
+                                  | _, _ => None
+                                  end
+                end) (m_contents m))
+        end
+      else Some (File (o_data o))
+    end
+  end.
+
+Definition truth (a : artifact) (slot : option node) (c : cache) : bool :=
+  match slot with
+  | None => false
+  | Some n =>
+    if a_skip a then
+      match n with
+      | File b => has_cs (a_cs a) && beqb (hexdigest b) (a_cs a)
+      | _ => false
+      end
+    else
+      Bool.eqb (a_isdir a) (is_dir n) &&
+      match expand 64 a c with
+      | Some t => node_eqb (tracked_view a (logical c n)) t
+      | None => false
+      end
+  end.
+
+(* every artifact status (top level) agrees with the truth; children of directories are
+   checked through their own recorded artifacts *)
+Fixpoint status_truth (fuel : nat) (s : stree) (slot : option node) (c : cache) : bool :=
+  match fuel with
+  | O => true
+  | S f =>
+    match s with
+    | St a _ _ _ cm kids =>
+      Bool.eqb cm (truth a slot c) &&
+      match slot with
+      | Some (Dir es) =>
+        (fix go (l : list (bytes * stree)) : bool :=
+           match l with
+           | [] => true
+           | (k, ks) :: r =>
+             (* only tracked children carry a recorded artifact; untracked ones must be false *)
+             (match st_art ks with
+              | a' => if has_cs (a_cs a') then status_truth f ks (alookup k es) c
+                      else negb (st_cm ks)
+              end) && go r
+           end) kids
+      | _ => true
+      end
+    end
+  end.
+
+Definition spec_status_truth (w : world) (out : output) : bool :=
+  match out with
+  | OStatus l =>
+    forallb (fun s => forallb (fun a =>
+      status_truth 8 (snd a) (get (w_root w) (comps (fst a))) (w_cache w)) (ss_arts (snd s))) l
+  | _ => false
+  end.
+
+(* C07: plain inputs and skip-cache artifacts are physically untouched *)
+Definition spec_inputs_untouched (pre post : world) : bool :=
+  match load_index (w_index pre) (w_stages pre) [] with
+  | None => true
+  | Some idx =>
+    forallb (fun e =>
+      forallb (fun a =>
+        match find_owner idx (a_path a) with
+        | Some _ => true
+        | None => onode_eqb (get (w_root pre) (comps (a_path a))) (get (w_root post) (comps (a_path a)))
+        end) (s_inputs (snd e)) &&
+      forallb (fun a =>
+        if a_skip a
+        then onode_eqb (get (w_root pre) (comps (a_path a))) (get (w_root post) (comps (a_path a)))
+        else true) (s_outputs (snd e))) idx
+  end.
+
+Definition has_obs (c : tcase) (n : N) : bool := existsb (N.eqb n) (t_obs c).
+
 Definition has_spec (c : tcase) (n : N) : bool := existsb (N.eqb n) (t_specs c).
 
 Definition spec_ok (c : tcase) : bool :=
@@ -181,6 +301,20 @@ Definition spec_ok (c : tcase) : bool :=
   (if has_spec c 14 then
      node_eqb (logical (w_cache (t_pre c)) (w_root (t_pre c))) (logical (w_cache (t_post c)) (w_root (t_post c)))
    else true) &&
+  (* C06: every pre-existing entry is preserved (also when checkout fails) *)
+  (if has_spec c 4 then
+     preserved_b (w_cache (t_pre c))
+                 (match t_cmd c with CCheckout _ cp _ => cp | _ => false end)
+                 (Some (w_root (t_pre c))) (Some (w_root (t_post c)))
+   else true) &&
+  (* C05: status agrees with an independent diff of workspace and committed tree *)
+  (if has_spec c 6 then t_ok c && spec_status_truth (t_pre c) (t_out c) else true) &&
+  (* C07: inputs / skip-cache artifacts physically untouched *)
+  (if has_spec c 10 then spec_inputs_untouched (t_pre c) (t_post c) else true) &&
+  (* C18: nothing outside the project, the cache and the config directory changed *)
+  (if has_spec c 20 then negb (has_obs c 1) else true) &&
+  (* C07: root tree physically unchanged *)
+  (if has_spec c 21 then node_eqb (w_root (t_pre c)) (w_root (t_post c)) else true) &&
   (* C15 mixed: a different command of the family after a success is a logical no-op *)
   (if has_spec c 16 then
      t_ok c && cache_eqb (w_cache (t_pre c)) (w_cache (t_post c)) &&
